@@ -4,6 +4,7 @@ package main
 // Sorts: Bool, BitVec(w), Array(BitVec 64 -> BitVec w).
 
 import (
+	"os"
 	"fmt"
 	"math/big"
 	"sort"
@@ -1362,6 +1363,13 @@ func (t *Term) sexp(names map[int]string, depth int) string {
 // Script builds an SMT-LIB script checking satisfiability of the conjunction
 // of asserts.  Shared bound-free subterms are hoisted into define-fun.
 func Script(asserts []*Term, getVals []*Term, opaque map[string]bool) string {
+	return ScriptOpt(asserts, getVals, opaque, false)
+}
+
+// ScriptOpt: with unfoldOnly, recursive spec functions are left uninterpreted and only their
+// ground unfolding instances (two levels) are stated.  That script is weaker than the one with
+// define-fun-rec, so its "unsat" is a proof, while its "sat" decides nothing.
+func ScriptOpt(asserts []*Term, getVals []*Term, opaque map[string]bool, unfoldOnly bool) string {
 	// collect reference counts
 	refs := map[int]int{}
 	var order []*Term
@@ -1477,6 +1485,46 @@ func Script(asserts []*Term, getVals []*Term, opaque map[string]bool) string {
 			}
 		}
 	}
+	// unfolding of every ground application of a recursive spec function: the instance
+	// f(args) = body[args] is a consequence of the definition, and stating it spares the solver the
+	// search for it (inductive steps need exactly one unfolding).
+	{
+		levels := 1
+		if unfoldOnly {
+			levels = 2
+			if v := os.Getenv("GOVC_UNFOLD"); v != "" {
+				fmt.Sscan(v, &levels)
+			}
+		}
+		done := map[int]bool{}
+		total := 0
+		for lv := 0; lv < levels; lv++ {
+			var inst []*Term
+			for _, t := range order {
+				if t.Op != OApp || t.hasBound || done[t.id] || total >= 96 {
+					continue
+				}
+				fd := TB.funcs[t.Name]
+				if fd == nil || !fd.Rec || fd.Body == nil || opaque[t.Name] || len(t.Args) != len(fd.Params) {
+					continue
+				}
+				done[t.id] = true
+				total++
+				m := map[int]*Term{}
+				for i, pn := range fd.PNames {
+					m[Var(pn, fd.Params[i]).id] = t.Args[i]
+				}
+				inst = append(inst, Eq(t, Subst(fd.Body, m)))
+			}
+			for _, e := range inst {
+				if !e.IsTrue() {
+					collectApps(e, addFn)
+					visit(e)
+					all = append(all, e)
+				}
+			}
+		}
+	}
 	// defining axioms of canonical arrays that occur (transitively)
 	doneAx := map[string]bool{}
 	for changed := true; changed; {
@@ -1516,7 +1564,7 @@ func Script(asserts []*Term, getVals []*Term, opaque map[string]bool) string {
 	}
 	for _, n := range fnOrder {
 		fd := TB.funcs[n]
-		if fd.Body == nil || opaque[n] {
+		if fd.Body == nil || opaque[n] || (unfoldOnly && fd.Rec) {
 			fmt.Fprintf(&sb, "(declare-fun %s (", smtName(n))
 			for i, p := range fd.Params {
 				if i > 0 {
